@@ -36,6 +36,9 @@ impl FeoxStore {
     /// cache's reference bits nor the statistics.
     pub fn verif_tiers(&self, key: &[u8]) -> Option<VerifTiers> {
         let record = self.hash_table.read(key, |_, record| Arc::clone(record))?;
+        // the flusher publishes the sector before it drops the resident bytes: read in that order, or a
+        // generation that is being offloaded can look as if it were nowhere
+        let resident = record.get_value().map(|value| value.to_vec());
         let on_disk = self.verif_device_value(&record);
         let cached = self
             .cache
@@ -46,7 +49,7 @@ impl FeoxStore {
             id: Arc::as_ptr(&record) as usize,
             timestamp: record.timestamp,
             sector: record.sector.load(Ordering::Acquire),
-            resident: record.get_value().map(|value| value.to_vec()),
+            resident,
             on_disk,
             cached,
         })
